@@ -3,7 +3,7 @@ from orchestrate.common import run_check
 
 def _ops(line):
     case = line.split("|")[0].split()
-    return [t for t in case if t[:2] in ("X/", "B/", "E/", "F/", "I/", "Y/")]
+    return [t for t in case if t[:2] in ("X/", "B/", "E/", "F/", "I/", "Y/", "Z/")]
 
 
 def _plain_inits(lines):
@@ -54,6 +54,7 @@ def _extra(lines, verdicts):
         h["pager_pages"] += sum(int(t[3:], 16) for t in obs.split() if t.startswith("OI/"))
         h["batches"] += sum(o[0] == "B" for o in ops)
         h["concurrent_pairs"] += sum(o[0] == "Y" for o in ops)
+        h["concurrent_distinct_stmt_blocks"] = h.get("concurrent_distinct_stmt_blocks", 0) + sum(o[0] == "Z" for o in ops)
         h["events"] += sum(o[0] == "E" for o in ops)
         h["paged_calls"] += sum(o[0] == "X" and o.split("/")[4] != "~" for o in ops)
         h["unprepared_answers"] += obs.count(">u:")
@@ -90,6 +91,10 @@ def _post(lines, verdicts):
             "batch calls": (case.count(" B/"), n // 20),
             "pager calls": (case.count(" I/"), n // 100),
             "concurrent pairs": (case.count(" Y/"), n // 100),
+            "blocks of concurrent executes of distinct evicted statements over one connection": (case.count(" Z/"), n // 40),
+            "histories with such blocks, judged ok, with at least 2 UNPREPARED answers": (
+                sum(1 for l, v in zip(lines, verdicts) if " Z/" in l.split("|")[0] and v and v.startswith(("ok", "viol class="))
+                    and l.split("|")[-1].count(">u:") >= 2), n // 60),
             "Session::prepare cases": (sum(1 for l in lines if l.startswith("P ")), n // 40),
             "Session::prepare second rounds": (sum(1 for l in lines if l.startswith("P ") and l.split("|")[-1].count("@") > len(l.split()[1])), n // 400),
             "mixed-extension clusters": (sum(1 for l in lines if l.startswith("H ") and len(l.split()[1]) > 1), n // 40),
@@ -115,7 +120,7 @@ SPEC = {
     "runner_timeout": 3000,
     "rule": ("one case = one seeded history against a fresh mock cluster (1-3 nodes, with/without the metadata-id "
              "extension, a fifth of the multi-node clusters MIXED (there the nodes without the extension are at schema version 1 when Session::prepare runs, and the column specs of the fresh statements are recorded, so that the driver knows which kind of node each initial cell came from), 1-3 prepared statements with 2-4 schema versions each) and a real Session: 4-15 ops (client calls, node events, forced answers, concurrency markers; about 5.6 client calls per history) out of "
-             "execute / single-page execute / execute_iter (pager, 1-3 pages) / batch / pairs of CONCURRENT executes on two nodes (random node, use_cached_result_metadata, consistency, serial "
+             "execute / single-page execute / execute_iter (pager, 1-3 pages) / batch / pairs of CONCURRENT executes on two nodes / blocks of 2-4 CONCURRENT executes of distinct evicted statements over one connection with PREPARE answers delayed 50-150 ms (1/14 of the histories) (random node, use_cached_result_metadata, consistency, serial "
              "consistency, timestamp, page size, paging state) and node events {evicted, schema-changed, prepared, "
              "id-changing}; about a fifth of the histories additionally force arbitrary (ill-behaved) answers. "
              "1/12 of the cases are Session::prepare cases (kind P: nodes at different schema versions / id salts / with forced errors before the prepare; both rounds of prepare_nongeneric recorded). non-trivial = the history contains at least one client call; distinct = distinct case lines"),
@@ -145,7 +150,7 @@ SPEC = {
         "environment: only session / mock-cluster start failures, exec:* request errors (timeout, empty plan, pool), "
         "routing to an unexpected node and incomplete PREPARE rounds are counted not-run (cap max(3, 1%)); a runner "
         "panic, a malformed case, lost pager rows are errors / violations",
-        "concurrent callers in the tie: pairs of calls on different nodes sharing one PreparedStatement; the acceptor searches the interleavings of their client-side steps (g_par)",
+        "concurrent callers in the tie: pairs of calls on different nodes sharing one PreparedStatement (the acceptor searches the interleavings of their client-side steps, g_par), and blocks of 2-4 calls of DISTINCT statements over one connection (independent statements: each caller's exchanges, projected by statement id, are judged as one sequential operation)",
     ],
     "extra_coverage": _extra,
     "post": _post,
